@@ -12,7 +12,7 @@ class C11(PipelineProp):
     def rule(self):
         return (
             "PretextView-model edit scripts (and 20% perturbed ones) over TPF-style inputs with forward and reverse "
-            "contigs, 1-bp contigs, contigs abutting without gap, 25% maps that flip single contigs (1-bp ones included) in place at a 1-bp texel, contig-less (gap-only) input scaffolds, re-curation inputs (two pieces of one contig side by side on opposite strands, the scaffold shown reversed), whole scaffolds re-oriented in the map; cuts / "
+            "contigs, 1-bp contigs, contigs abutting without gap, 25% maps that flip single contigs (1-bp ones included) in place at a 1-bp texel, contig-less (gap-only) input scaffolds, re-curation inputs (two pieces of one contig side by side on opposite strands, the scaffold shown reversed), whole scaffolds re-oriented in the map, Haplotig pieces that come out empty, two-haplotype maps with scaffolds outside both haplotype name spaces; the info.yaml totals are read back; cuts / "
             "breaks / joins recounted independently from unordered pairs of facing contig ends. non-trivial = "
             "distinct completed case with at least one junction in input or output"
         )
@@ -86,6 +86,30 @@ class C11(PipelineProp):
                 "pretext": {"bpt": "1.000000", "scaffolds": ptx}, "prefix": "SUPER_"}
 
     def gen_case(self, rng):
+        x0 = rng.random()
+        if x0 < 0.06:
+            # a Haplotig-tagged piece that comes out empty (no scaffold is written for it) next to real haplotigs
+            from .c10 import PROP as C10P
+
+            c = C10P.gen_sliver(rng)
+            while not c["gen"].endswith("haplotig"):
+                c = C10P.gen_sliver(rng)
+            return {"gen": "empty-haplotig", "input": c["input"], "pretext": c["pretext"], "prefix": "SUPER_"}
+        if x0 < 0.16:
+            # two haplotypes with ToL names plus scaffolds outside both name spaces: breaks and joins
+            # there belong to no per-assembly line, the totals still count them
+            from .c10 import make_tagger
+
+            inp = P.gen_input(rng, style="fasta", hap_names=True, nscaf=rng.randint(2, 4))
+            extra = P.gen_input(rng, style="tpf", nscaf=rng.randint(1, 2))
+            for k, sc in enumerate(extra["scaffolds"]):
+                sc["name"] = f"SCAFFOLD_{90 + k}"
+                for r in sc["rows"]:
+                    if r[0] == "F":
+                        r[1] = "x" + r[1]
+            inp["scaffolds"] += extra["scaffolds"]
+            ptx, _ = P.gen_pretext(rng, inp, "edit", tagger=make_tagger(True))
+            return {"gen": "2hap+unprefixed", "input": inp, "pretext": ptx, "prefix": "SUPER_"}
         if rng.random() < 0.25:
             return self.gen_flip_in_place(rng)
         if rng.random() < 0.15:
@@ -138,7 +162,14 @@ class C11(PipelineProp):
         if pl and pl.get("yaml"):
             import yaml
 
-            reported = yaml.safe_load(pl["yaml"]).get("manual_haplotig_removals")
+            info = yaml.safe_load(pl["yaml"])
+            # the run's totals are the first (top-level) occurrences
+            top = {k_: v_ for k_, v_ in info.items() if not isinstance(v_, (dict, list))}
+            for key_, want_ in (("manual_breaks", breaks), ("manual_joins", joins)):
+                if key_ in top and top[key_] != want_:
+                    return (f"info.yaml reports {key_} = {top[key_]}, the run made {want_} "
+                            f"(input adjacencies lost / new output adjacencies)")
+            reported = info.get("manual_haplotig_removals")
             written = sum(1 for a in obs["asms"] if a["key"] == "Haplotig" for s_ in a["scaffolds"] if s_["rows"])
             if reported != written:
                 return f"info.yaml reports {reported} haplotig removals, {written} haplotig scaffolds are written"
